@@ -527,6 +527,247 @@ theorem step_primary_stack (nP nS : Nat) (ss : List Side) (sides : List (List Ce
   show updatePrimary _ _ _ = _
   rw [stack_update_primary nP nS ss _ _ (by rw [faceMatch_c, faceMatch_c]) h, faceMatch_c]
 
+/-! ### the constructor: `_init_projections` yields matching 0/1 sides -/
+
+/-- The constructor on a two-sided interface: what `_init_projections` + `_set_projections` store is
+    the stack of two matching 0/1 sides (mortar cell `i` of a side ↔ one primary face, secondary
+    cell `i`), each of which satisfies the invariant; the sides cover disjoint primary faces. -/
+theorem constructor_two_sides (numCells nPrim nSec : Nat) (entries : List Ent) (dup : Option (List Nat))
+    (P S : Mat) (h : initBase 2 numCells nPrim nSec entries dup = some (P, S))
+    (wf : WellFormedMap nPrim nSec entries) :
+    ∃ pf1 sf1 pf2 sf2,
+      initProj P S = stackSides nPrim nSec
+        [matchingSide nSec nPrim nSec pf1 sf1, matchingSide nSec nPrim nSec pf2 sf2] ∧
+      SideInv (fun j => ∃ i, i < nSec ∧ pf1 i = j) nPrim nSec (matchingSide nSec nPrim nSec pf1 sf1) ∧
+      SideInv (fun j => ∃ i, i < nSec ∧ pf2 i = j) nPrim nSec (matchingSide nSec nPrim nSec pf2 sf2) ∧
+      (∀ j, ¬ ((∃ i, i < nSec ∧ pf1 i = j) ∧ (∃ i, i < nSec ∧ pf2 i = j))) := by
+  obtain ⟨hok, hlen, hP, hS⟩ := initBase_inv 2 numCells nPrim nSec entries dup P S h
+  have hord : sideOrder 2 (sortBySec (dupOrder 2 entries dup)) =
+      evens (sortBySec (dupOrder 2 entries dup)) ++ odds (sortBySec (dupOrder 2 entries dup)) := by
+    unfold sideOrder; exact if_pos rfl
+  have hperm := ordered_perm 2 entries dup
+  rw [hord] at hperm hlen hP hS
+  generalize hsorted : sortBySec (dupOrder 2 entries dup) = sorted at hperm hlen hP hS
+  have hmem1 : ∀ t : Ent, t ∈ dupOrder 2 entries dup ↔ t ∈ entries := fun t => (dupOrder_perm 2 entries dup).mem_iff
+  have hk : sorted.map (·.1) = dblFrom 0 nSec := by
+    rw [← hsorted]
+    exact sorted_keys_two nSec _ (fun t ht => wf.sec t ((hmem1 t).mp ht))
+      (fun c hc => by obtain ⟨t, ht, e⟩ := wf.all c hc; exact ⟨t, (hmem1 t).mpr ht, e⟩) hok
+  obtain ⟨le, lo, hs1, hs2⟩ := side_keys sorted nSec (0, 0, 0) hk
+  generalize hordered : evens sorted ++ odds sorted = ordered at hperm hlen hP hS hs1 hs2
+  have hlen2 : ordered.length = nSec + nSec := by rw [← hordered, List.length_append, le, lo]
+  have hnum : numCells = nSec + nSec := by rw [← hlen, hlen2]
+  subst hnum
+  have hin : ∀ i, i < nSec + nSec → ordered.getD i (0, 0, 0) ∈ entries := fun i hi =>
+    hperm.mem_iff.mp (getD_mem ordered _ i (by omega))
+  have hnd : (ordered.map (·.2.1)).Nodup := (hperm.map _).nodup_iff.mpr wf.nodup
+  let pf1 : Nat → Nat := fun i => (ordered.getD i (0, 0, 0)).2.1
+  let sf1 : Nat → Nat := fun i => (ordered.getD i (0, 0, 0)).1
+  let pf2 : Nat → Nat := fun i => (ordered.getD (nSec + i) (0, 0, 0)).2.1
+  let sf2 : Nat → Nat := fun i => (ordered.getD (nSec + i) (0, 0, 0)).1
+  refine ⟨pf1, sf1, pf2, sf2, ?_, ?_, ?_, ?_⟩
+  · have hPv : P = vstack nPrim [(matchingSide nSec nPrim nSec pf1 sf1).pInt,
+        (matchingSide nSec nPrim nSec pf2 sf2).pInt] := by
+      rw [hP]
+      unfold pTable
+      rw [two_block_table]
+      show Mat.vcat _ (Mat.vcat _ _) = Mat.vcat _ (Mat.vcat _ _)
+      congr 1
+      · apply table_congr
+        intro i j hi _
+        simp only [pf1, wf.data _ (hin i (by omega))]
+      · congr 1
+        apply table_congr
+        intro i j hi _
+        simp only [pf2, wf.data _ (hin (nSec + i) (by omega))]
+    have hSv : S = vstack nSec [(matchingSide nSec nPrim nSec pf1 sf1).sInt,
+        (matchingSide nSec nPrim nSec pf2 sf2).sInt] := by
+      rw [hS]
+      unfold sTable
+      rw [two_block_table]
+      show Mat.vcat _ (Mat.vcat _ _) = Mat.vcat _ (Mat.vcat _ _)
+      congr 1
+      · apply table_congr
+        intro i j hi _
+        simp only [sf1, wf.data _ (hin i (by omega))]
+      · congr 1
+        apply table_congr
+        intro i j hi _
+        simp only [sf2, wf.data _ (hin (nSec + i) (by omega))]
+    rw [hPv, hSv]
+    rfl
+  · exact matching_init_sideInv nSec nPrim nSec pf1 sf1
+      (fun i hi => wf.prim _ (hin i (by omega)))
+      (fun i k hi hk e => getD_inj_of_prim_nodup ordered _ hnd i k (by omega) (by omega) e)
+      (fun i hi => by show (ordered.getD i (0, 0, 0)).1 < nSec; rw [hs1 i hi]; exact hi)
+      (fun i k hi hk e => by
+        have e' : (ordered.getD i (0, 0, 0)).1 = (ordered.getD k (0, 0, 0)).1 := e
+        rw [hs1 i hi, hs1 k hk] at e'; exact e')
+      (fun j hj => ⟨j, hj, hs1 j hj⟩)
+  · exact matching_init_sideInv nSec nPrim nSec pf2 sf2
+      (fun i hi => wf.prim _ (hin (nSec + i) (by omega)))
+      (fun i k hi hk e => by
+        have := getD_inj_of_prim_nodup ordered _ hnd (nSec + i) (nSec + k) (by omega) (by omega) e
+        omega)
+      (fun i hi => by show (ordered.getD (nSec + i) (0, 0, 0)).1 < nSec; rw [hs2 i hi]; exact hi)
+      (fun i k hi hk e => by
+        have e' : (ordered.getD (nSec + i) (0, 0, 0)).1 = (ordered.getD (nSec + k) (0, 0, 0)).1 := e
+        rw [hs2 i hi, hs2 k hk] at e'; exact e')
+      (fun j hj => ⟨j, hj, hs2 j hj⟩)
+  · rintro j ⟨⟨i, hi, e1⟩, ⟨k, hk, e2⟩⟩
+    have := getD_inj_of_prim_nodup ordered _ hnd i (nSec + k) (by omega) (by omega) (e1.trans e2.symm)
+    omega
+
+
+/-- The constructor on a one-sided interface (every secondary cell coupled to exactly one face). -/
+theorem constructor_one_side (numCells nPrim nSec : Nat) (entries : List Ent) (dup : Option (List Nat))
+    (P S : Mat) (h : initBase 1 numCells nPrim nSec entries dup = some (P, S))
+    (wf : WellFormedMap nPrim nSec entries) (hsnd : (entries.map (·.1)).Nodup) :
+    ∃ pf sf,
+      initProj P S = stackSides nPrim nSec [matchingSide numCells nPrim nSec pf sf] ∧
+      SideInv (fun j => ∃ i, i < numCells ∧ pf i = j) nPrim nSec (matchingSide numCells nPrim nSec pf sf) := by
+  obtain ⟨_, hlen, hP, hS⟩ := initBase_inv 1 numCells nPrim nSec entries dup P S h
+  have hord : sideOrder 1 (sortBySec (dupOrder 1 entries dup)) = sortBySec (dupOrder 1 entries dup) := by
+    unfold sideOrder; exact if_neg (by decide)
+  have hperm := ordered_perm 1 entries dup
+  rw [hord] at hperm hlen hP hS
+  generalize sortBySec (dupOrder 1 entries dup) = ordered at hperm hlen hP hS
+  subst hlen
+  have hin : ∀ i, i < ordered.length → ordered.getD i (0, 0, 0) ∈ entries := fun i hi =>
+    hperm.mem_iff.mp (getD_mem ordered _ i hi)
+  have hnd : (ordered.map (·.2.1)).Nodup := (hperm.map _).nodup_iff.mpr wf.nodup
+  have hnds : (ordered.map (·.1)).Nodup := (hperm.map _).nodup_iff.mpr hsnd
+  let pf : Nat → Nat := fun i => (ordered.getD i (0, 0, 0)).2.1
+  let sf : Nat → Nat := fun i => (ordered.getD i (0, 0, 0)).1
+  refine ⟨pf, sf, ?_, ?_⟩
+  · have hPv : P = vstack nPrim [(matchingSide ordered.length nPrim nSec pf sf).pInt] := by
+      rw [hP]
+      unfold pTable
+      rw [one_block_table]
+      show Mat.vcat _ _ = Mat.vcat _ _
+      congr 1
+      apply table_congr
+      intro i j hi _
+      simp only [pf, wf.data _ (hin i hi)]
+    have hSv : S = vstack nSec [(matchingSide ordered.length nPrim nSec pf sf).sInt] := by
+      rw [hS]
+      unfold sTable
+      rw [one_block_table]
+      show Mat.vcat _ _ = Mat.vcat _ _
+      congr 1
+      apply table_congr
+      intro i j hi _
+      simp only [sf, wf.data _ (hin i hi)]
+    rw [hPv, hSv]
+    rfl
+  · exact matching_init_sideInv ordered.length nPrim nSec pf sf
+      (fun i hi => wf.prim _ (hin i hi))
+      (fun i k hi hk e => getD_inj_of_prim_nodup ordered _ hnd i k hi hk e)
+      (fun i hi => wf.sec _ (hin i hi))
+      (fun i k hi hk e => getD_inj_of_sec_nodup ordered _ hnds i k hi hk e)
+      (fun j hj => by
+        obtain ⟨t, ht, e⟩ := wf.all j hj
+        obtain ⟨a, ha, ea⟩ := exists_getD_of_mem' ordered (0, 0, 0) t (hperm.mem_iff.mpr ht)
+        exact ⟨a, ha, by show (ordered.getD a (0, 0, 0)).1 = j; rw [ea, e]⟩)
+
+/-! ### the whole interface, every history, all eight projections -/
+
+theorem SideInv.shaped {cov : Nat → Prop} {nP nS : Nat} {s : Side} (h : SideInv cov nP nS s) : s.Shaped nP nS :=
+  ⟨h.pInt_c, h.pAvg_c, h.sInt_c, h.sAvg_c, h.pAvg_r, h.sInt_r, h.sAvg_r⟩
+
+theorem eightOK_of_inv {cov : Nat → Prop} {nP nS : Nat} {s : Side} (h : SideInv cov nP nS s) : EightOK cov nP nS s where
+  inv := h
+  m2pInt_col := fun i hi => by rw [colSum_T _ i (h.pAvg_r ▸ hi)]; exact h.pAvg_row i hi
+  m2pAvg_row := fun j hj hc => by rw [rowSum_T _ j (h.pInt_c ▸ hj)]; exact h.pInt_col j hj hc
+  m2sInt_col := fun i hi => by rw [colSum_T _ i (h.sAvg_r ▸ hi)]; exact h.sAvg_row i hi
+  m2sAvg_row := fun j hj => by rw [rowSum_T _ j (h.sInt_c ▸ hj)]; exact h.sInt_col j hj
+
+theorem ireach_inv {nP nS : Nat} {L : List CSide} {pr : Proj} (h : IReach nP nS L pr) :
+    pr = stackSides nP nS (L.map (·.1)) ∧ ∀ x ∈ L, SideInv x.2 nP nS x.1 := by
+  induction h with
+  | start nP nS L h => exact ⟨rfl, h⟩
+  | mortar nP nS pr M _ hv ih =>
+    obtain ⟨hpr, hinv⟩ := ih
+    constructor
+    · rw [hpr]
+      have := stack_update_mortar nP nS (M.map fun x => (x.1.1, x.2.1, x.2.2)) (by
+        intro y hy
+        obtain ⟨x, hx, rfl⟩ := List.mem_map.mp hy
+        have hi := hinv x.1 (List.mem_map.mpr ⟨x, hx, rfl⟩)
+        obtain ⟨_, _, _, hac, hic, _⟩ := hv x hx
+        exact ⟨hi.shaped, hac, hic⟩)
+      simpa [List.map_map, Function.comp_def] using this
+    · intro y hy
+      obtain ⟨x, hx, rfl⟩ := List.mem_map.mp hy
+      exact sideInv_step ⟨x.1.2, nP, nS⟩ ⟨x.1.2, nP, nS⟩ x.1.1 _ (hinv x.1 (List.mem_map.mpr ⟨x, hx, rfl⟩)) (hv x hx)
+  | secondary nP nS nS' pr M _ hv ih =>
+    obtain ⟨hpr, hinv⟩ := ih
+    constructor
+    · rw [hpr]
+      have := stack_update_secondary nP nS nS' (M.map fun x => (x.1.1, x.2.1, x.2.2))
+      simpa [List.map_map, Function.comp_def] using this
+    · intro y hy
+      obtain ⟨x, hx, rfl⟩ := List.mem_map.mp hy
+      exact sideInv_step ⟨x.1.2, nP, nS⟩ ⟨x.1.2, nP, nS'⟩ x.1.1 _ (hinv x.1 (List.mem_map.mpr ⟨x, hx, rfl⟩)) (hv x hx)
+  | primary nP nS nP' pr a i M _ ha hi hv ih =>
+    obtain ⟨hpr, hinv⟩ := ih
+    constructor
+    · rw [hpr, stack_update_primary nP nS _ a i (by rw [ha, hi]) (by
+        intro s hs
+        obtain ⟨y, hy, rfl⟩ := List.mem_map.mp hs
+        have := hinv y hy
+        exact ⟨this.pInt_c, this.pAvg_c⟩), ha]
+      simp [List.map_map, Function.comp_def]
+    · intro y hy
+      obtain ⟨x, hx, rfl⟩ := List.mem_map.mp hy
+      exact sideInv_step ⟨x.1.2, nP, nS⟩ ⟨x.2, nP', nS⟩ x.1.1 _ (hinv x.1 (List.mem_map.mpr ⟨x, hx, rfl⟩)) (hv x hx)
+
+/-- THE PROPERTY, in one statement.  For every interface state reachable from the constructor by any
+    sequence of valid `update_mortar` / `update_secondary` / `update_primary` calls:
+    (1) the four mortar-to-grid matrices are the transposes of the grid-to-mortar matrices
+        (int ↔ avg exchanged);
+    (2) the stored matrices are the stack, side by side, of per-side blocks;
+    (3) on each mortar side all eight projections behave: averaged maps have unit row sums
+        (constants to constants; for mortar_to_primary_avg on the covered faces), integrated maps
+        have unit column sums (totals preserved; for primary_to_mortar_int on the covered faces),
+        and the maps from / to primary touch covered faces only. -/
+theorem mortar_projections_conserve {nP nS : Nat} {L : List CSide} {pr : Proj} (h : IReach nP nS L pr) :
+    TransposePairs pr ∧ pr = stackSides nP nS (L.map (·.1)) ∧ ∀ x ∈ L, EightOK x.2 nP nS x.1 := by
+  obtain ⟨hpr, hinv⟩ := ireach_inv h
+  refine ⟨?_, hpr, fun x hx => eightOK_of_inv (hinv x hx)⟩
+  rw [hpr]
+  exact ⟨rfl, rfl, rfl, rfl⟩
+
+/-- the state a two-sided constructor call leaves is a start state of `IReach` -/
+theorem constructor_reach_two (numCells nPrim nSec : Nat) (entries : List Ent) (dup : Option (List Nat))
+    (P S : Mat) (h : initBase 2 numCells nPrim nSec entries dup = some (P, S))
+    (wf : WellFormedMap nPrim nSec entries) :
+    ∃ L : List CSide, L.length = 2 ∧ IReach nPrim nSec L (initProj P S) := by
+  obtain ⟨pf1, sf1, pf2, sf2, hst, h1, h2, _⟩ := constructor_two_sides numCells nPrim nSec entries dup P S h wf
+  refine ⟨[(matchingSide nSec nPrim nSec pf1 sf1, fun j => ∃ i, i < nSec ∧ pf1 i = j),
+           (matchingSide nSec nPrim nSec pf2 sf2, fun j => ∃ i, i < nSec ∧ pf2 i = j)], rfl, ?_⟩
+  rw [hst]
+  exact IReach.start nPrim nSec _ (by
+    intro x hx
+    simp only [List.mem_cons, List.not_mem_nil, or_false] at hx
+    rcases hx with rfl | rfl
+    · exact h1
+    · exact h2)
+
+/-- … and a one-sided constructor call -/
+theorem constructor_reach_one (numCells nPrim nSec : Nat) (entries : List Ent) (dup : Option (List Nat))
+    (P S : Mat) (h : initBase 1 numCells nPrim nSec entries dup = some (P, S))
+    (wf : WellFormedMap nPrim nSec entries) (hsnd : (entries.map (·.1)).Nodup) :
+    ∃ L : List CSide, L.length = 1 ∧ IReach nPrim nSec L (initProj P S) := by
+  obtain ⟨pf, sf, hst, h1⟩ := constructor_one_side numCells nPrim nSec entries dup P S h wf hsnd
+  refine ⟨[(matchingSide numCells nPrim nSec pf sf, fun j => ∃ i, i < numCells ∧ pf i = j)], rfl, ?_⟩
+  rw [hst]
+  exact IReach.start nPrim nSec _ (by
+    intro x hx
+    simp only [List.mem_cons, List.not_mem_nil, or_false] at hx
+    subst hx
+    exact h1)
+
 /-! ### non-vacuity: concrete data satisfying the hypotheses -/
 section nonvacuity
 /-- two tessellations of [0,1]: cells listed right-to-left / left-to-right -/
@@ -614,6 +855,35 @@ example : (step ⟨stackSides 4 2 [exSide0, exSide0], [exOld2, exOld2], 2⟩ (.m
     intro x hx
     simp only [List.mem_cons, List.not_mem_nil, or_false] at hx
     rcases hx with rfl | rfl <;> exact ⟨⟨rfl, rfl, rfl, rfl, rfl, rfl, rfl⟩, rfl⟩)
+
+/-- constructor data of a two-sided interface: secondary cells 0,1; faces 1,2 (side 1) and 4,5 (side 2) of 6 -/
+def exEntries : List Ent := [(0, 1, 1), (1, 2, 1), (0, 4, 1), (1, 5, 1)]
+theorem exEntries_wf : WellFormedMap 6 2 exEntries :=
+  ⟨by decide +kernel, by decide +kernel, by decide +kernel, by decide +kernel, by decide +kernel⟩
+example : (initBase 2 4 6 2 exEntries none).isSome = true := by decide +kernel
+example : (initBase 2 4 6 2 exEntries (some [1, 2])).isSome = true := by decide +kernel
+/-- a cell listed once only is rejected (`ValueError`) -/
+example : initBase 2 3 6 2 [(0, 1, 1), (1, 2, 1), (0, 4, 1)] none = none := by decide +kernel
+
+/-- a reachable two-sided interface: start, first side refined (second kept), secondary replaced -/
+def exM : List (CSide × Mat × Mat) :=
+  [((exSide0, exCtx.cov), match1d exNew exOld2 .averaged, match1d exNew exOld2 .integrated),
+   ((exSide0, exCtx.cov), Mat.identity 2, Mat.identity 2)]
+
+theorem exSide0_inv : SideInv exCtx.cov 4 2 exSide0 :=
+  matching_init_sideInv 2 4 2 (· + 1) id (fun i hi => by omega) (fun i k _ _ h => by omega)
+    (fun i hi => hi) (fun i k _ _ h => h) (fun j hj => ⟨j, hj, rfl⟩)
+
+example : ∃ L pr, IReach 4 2 L pr ∧ L.length = 2 :=
+  ⟨_, _, IReach.mortar 4 2 _ exM (IReach.start 4 2 _ (by
+      intro x hx
+      simp only [exM, List.map_cons, List.map_nil, List.mem_cons, List.not_mem_nil, or_false] at hx
+      rcases hx with rfl | rfl <;> exact exSide0_inv)) (by
+      intro x hx
+      simp only [exM, List.mem_cons, List.not_mem_nil, or_false] at hx
+      rcases hx with rfl | rfl
+      · exact mortar_update_valid exCtx exSide0 exNew exOld2 0 _ _ exNew_tess exOld2_tess rfl rfl
+      · exact identity_update_valid exCtx exSide0), rfl⟩
 
 end nonvacuity
 
